@@ -228,6 +228,53 @@ theorem C20_csv_sidecar (header : List String) (rows : List (List Cell)) (s : Si
     simp only [csvDataset, csvAttach, List.mem_filter] at he
     exact ⟨he.1, by simpa using he.2⟩
 
+/-! ### the `LazyVariable` object -/
+
+private theorem foldl_reshape_fields (ops : List ReshapeArgs) (lv : Lazy) :
+    (ops.foldl Lazy.doReshape lv).dtype = lv.dtype ∧ (ops.foldl Lazy.doReshape lv).ndim = lv.ndim ∧
+    (ops.foldl Lazy.doReshape lv).shape = lv.shape ∧ (ops.foldl Lazy.doReshape lv).size = lv.size ∧
+    (ops.foldl Lazy.doReshape lv).reshape = (match ops.getLast? with | none => lv.reshape | some a => a.target) := by
+  induction ops generalizing lv with
+  | nil => simp
+  | cons a rest ih =>
+    obtain ⟨h1, h2, h3, h4, h5⟩ := ih (lv.doReshape a)
+    refine ⟨h1, h2, h3, h4, ?_⟩
+    simp only [List.foldl_cons, h5]
+    cases rest with
+    | nil => simp [Lazy.doReshape]
+    | cons b r =>
+      have : (b :: r).getLast? = some ((b :: r).getLast (by simp)) := List.getLast?_eq_some_getLast (by simp)
+      simp [this]
+
+/-- **bookkeeping, every rank, any history of `reshape` calls** (in either calling convention): the object keeps the
+    file variable's type, rank (`ndim = len(dimensions)`), shape, size (= product of the extents, 1 for rank 0) and
+    `len` (first extent; `TypeError` for rank 0); only the pending reshape changes, to the last one asked for -/
+theorem C20_lazy_bookkeeping (v : Var) (ops : List ReshapeArgs) :
+    let lv := ops.foldl Lazy.doReshape (Lazy.ofVar v)
+    lv.dtype = v.ty ∧ lv.ndim = v.dims.length ∧ lv.shape = v.shape ∧ lv.size = prod v.shape ∧
+    lv.len = (match v.shape with | [] => .error .typeError | n :: _ => .ok n) ∧
+    lv.reshape = (match ops.getLast? with | none => v.shape | some a => a.target) := by
+  obtain ⟨h1, h2, h3, h4, h5⟩ := foldl_reshape_fields ops (Lazy.ofVar v)
+  refine ⟨h1, h2, h3, h4, ?_, h5⟩
+  simp only [Lazy.len, h3]
+  rfl
+
+/-- **reads on a reshaped object**: a read of as many elements as the pending shape holds (a whole-variable read)
+    comes back in that shape with the library's values in the library's order; any other read (a proper hyperslab)
+    is the library's answer untouched; errors of the library pass through -/
+theorem C20_lazy_reshaped_read (lv : Lazy) (read : Key → Except Err Arr) (key : Key) (hrank : lv.shape ≠ []) :
+    lv.get read key = (match read key with
+      | .error e => .error e
+      | .ok a => if lv.reshape ≠ lv.shape ∧ prod a.shape = prod lv.reshape then .ok ⟨lv.reshape, a.data⟩ else .ok a) := by
+  unfold Lazy.get lazyGet
+  cases hs : lv.shape with
+  | nil => exact absurd hs hrank
+  | cons n ns =>
+    simp only
+    cases read key with
+    | error e => rfl
+    | ok a => simp
+
 /-! ### CSV quoting rules (`csv.reader(quoting=QUOTE_NONNUMERIC)` as the handler uses it) -/
 
 /-- **which cells become strings and which floats, for every file a QUOTE_NONNUMERIC writer produces**: a header of
@@ -318,5 +365,13 @@ example : Csv.RowOK [.bare "1.5".toList, .bare [], .q "x,\"y\r\nz".toList] := by
   intro c hc
   simp at hc
   rcases hc with h | h | h <;> subst h <;> simp [Csv.CellOK, Csv.Plain]
+
+example : ([ReshapeArgs.ints [24], .seq [4, 6]].foldl Lazy.doReshape
+      (Lazy.ofVar { name := "v", ty := "i2", shape := [2, 3, 4], dims := ["a", "b", "c"], attrs := [] })) =
+    ⟨"i2", 3, [2, 3, 4], [4, 6], 24⟩ := by decide
+example : (Lazy.ofVar { name := "s", ty := "f8", shape := [], dims := [], attrs := [] }).len = .error .typeError ∧
+    (Lazy.ofVar { name := "s", ty := "f8", shape := [], dims := [], attrs := [] }).size = 1 := ⟨rfl, rfl⟩
+example : (Lazy.doReshape (Lazy.ofVar { name := "v", ty := "i2", shape := [2, 2], dims := ["a", "b"], attrs := [] }) (.seq [4])).get
+    (fun _ => .ok ⟨[2, 2], [1, 2, 3, 4]⟩) (.slices [(0, 2, 1), (0, 2, 1)]) = .ok ⟨[4], [1, 2, 3, 4]⟩ := by rfl
 
 end Pydap.C20
